@@ -981,7 +981,7 @@ v("C20", "silent-ctor-super-init", "silent", "codec/formats/bitvector.py",
   "    def __init__(self):\n        super().__init__()\n        self.occupancies = list()", None)
 
 
-# D11 (fix aa939f9): the empty-operand escape of the two-operand intersection
+# D11 (fix 5b8e760): the empty-operand escape of the two-operand intersection
 v("C04", "and-empty-operand-escape-removed", "fire", I,
   "            if len_a == len_b or a_coord is None or b_coord is None:",
   "            if len_a == len_b:", "C04.R7")
@@ -990,7 +990,7 @@ v("C04", "silent-and-empty-escape-reordered", "silent", I,
   "            if a_coord is None or b_coord is None or len_a == len_b:", None)
 
 
-# D12 / D13 (fixes 83f519d, 840274b): collecting-only precondition of project
+# D12 / D13 (fixes 8c55801, 56bbf0d): collecting-only precondition of project
 v("C15", "and-padding-drops-rank-id", "fire", I,
   "                    a = self.a_fiber.project(trans_fn=lambda c: c + extra,\n                                             rank_id=a_rank_id).__iter__(tick=False)",
   "                    a = self.a_fiber.project(trans_fn=lambda c: c + extra).__iter__(tick=False)", "C15.R7")
